@@ -109,8 +109,17 @@ def build_op(spec):
         return qp.ctrl(build_op(spec[1]), control=spec[2], **kw)
     name, wires, params = spec
     if params and isinstance(params[0], dict):  # array-valued parameter, see array_param
-        return getattr(qp, name)(array_param(name, len(wires), params[0]), wires=wires)
+        arr = array_param(name, len(wires), params[0])
+        if ARRAY_BUFFERS is not None:
+            # the caller's preallocated buffer, refilled in place for every new circuit (parameter sweep)
+            buf = ARRAY_BUFFERS.setdefault((name, len(wires), tuple(wires)), arr.copy())
+            buf[...] = arr
+            arr = buf
+        return getattr(qp, name)(arr, wires=wires)
     return getattr(qp, name)(*params, wires=wires)
+
+
+ARRAY_BUFFERS = None  # dict while a check wants array parameters to live in reused buffers
 
 
 def array_param(name, k, a):
